@@ -12,6 +12,8 @@ mod c17;
 mod c18;
 mod c19;
 mod c20;
+mod c21;
+mod c24;
 mod c26;
 mod c27;
 
@@ -33,6 +35,8 @@ fn main() {
         "c19_subst" => c19::subst(&args),
         "c19_malformed" => c19::malformed(&args),
         "c20" => c20::run(&args),
+        "c21" => c21::run(&args),
+        "c24" => c24::run(&args),
         "c26_rt" => c26::roundtrip(&args),
         "c26_hostile" => c26::hostile(&args),
         "c27_exh" => c27::exhaustive(&args),
